@@ -4,7 +4,7 @@ From Valida Require Import Py Lang Defs Cond Dsl Check DocSem Path Cast Str Spec
 Import ListNotations.
 Local Open Scope string_scope.
 Local Open Scope list_scope.
-From Valida.Proofs Require Import Tie C02Proof RuleProof C09Proof C10Proof.
+From Valida.Proofs Require Import Tie C02Proof RuleProof C09Proof C10Proof C11Proof C13Proof C10RuleProof.
 
 (* Statements are about the models of ContainerValue.from_spec (part_spec_parse), DataPath.from_part_specs /
    from_spec / from_str running on the tables translated from the current source.  The condition
@@ -84,3 +84,67 @@ Theorem C10_path_string_tokens : forall fo tok,
      str_part fo tok = PtMap (Some (KCond (DLeaf "Key" "in_" [VTuple [VStr tok; f]] []))) None None None).
 Proof. exact C10_from_str_token. Qed.
 Print Assumptions C10_path_strings. Print Assumptions C10_path_string_tokens.
+
+(* ---- rule specs ---- *)
+
+(* Rule.from_spec reads exactly the four fields path / condition / doc / cast, in this order of evaluation (so of errors);
+   every other entry of the mapping is ignored *)
+Theorem C10_rule_spec_fields : forall (d : list (pyval * pyval)) (pv c : pyval),
+  dict_look (VStr "path") d = Some pv -> dict_look (VStr "condition") d = Some c ->
+  rule_from_spec T X (VDict d) =
+  (let* parts := py_iter pv in
+   let* pt := from_part_specs T X parts in
+   let* (ct, _) := cond1_from_spec T X c in
+   let* doc := norm_doc (dict_look (VStr "doc") d) in
+   let* (casts, given) := parse_casts X (dict_look (VStr "cast") d) in
+   Ok ({| rt_path_t := pt; rt_cond_t := ct; rt_cast_t := casts |}, {| rx_doc := doc; rx_cast_given := given |})).
+Proof. exact C10_rule_fields. Qed.
+
+(* a rule spec over simple parts, a typed leaf of the C09 fragment in its spec spelling, any accepted doc and cast block:
+   the parsed rule IS the rule the API builds from the same path, condition and casts *)
+Theorem C10_rule_spec_builds_api_rule : forall (d : list (pyval * pyval)) (ts : list (pterm pyval)) (c : scls) (q : dsl)
+    (casts : list (pytype * castfn)) (g : bool) (doc : pyval),
+  forallb simple_pterm ts = true -> leaf_in_c09 c q = true -> q_items_ok q = true ->
+  dict_look (VStr "path") d = Some (VList (map sp_spec ts)) ->
+  dict_look (VStr "condition") d = Some (leaf_spec c q) ->
+  norm_doc (dict_look (VStr "doc") d) = Ok doc ->
+  parse_casts X (dict_look (VStr "cast") d) = Ok (casts, g) ->
+  exists (tm : dslc arg1) (p : dpath pyval),
+    rule_from_spec T X (VDict d) =
+    Ok ({| rt_path_t := api_path (map sp_back ts); rt_cond_t := tm; rt_cast_t := casts |}, {| rx_doc := doc; rx_cast_given := g |}) /\
+    mk_path T idlit (api_path ts) = Ok p /\
+    mk_rule T {| rt_path_t := api_path (map sp_back ts); rt_cond_t := tm; rt_cast_t := casts |} =
+    Ok {| r_path := p; r_cond := cmapL (CLeaf (Tie.expected_leaf c q)); r_cast := casts |} /\
+    mk_rule T (c13_term (api_path ts) (QLeaf c q) casts) =
+    Ok {| r_path := p; r_cond := cmapL (CLeaf (Tie.expected_leaf c q)); r_cast := casts |}.
+Proof. exact C10_rule_builds_api_rule. Qed.
+
+(* doc in every accepted shape: a one-line doc written as a string, a list, a mapping with a string or a list description,
+   with or without examples, is one and the same normal form; normalising is idempotent *)
+Theorem C10_doc_one_normal_form : forall s : string,
+  let nf := VDict [(VStr "description", VList [VStr (str_strip s)]); (VStr "examples", VList [])] in
+  (s <> "" -> norm_doc (Some (VStr s)) = Ok nf) /\
+  norm_doc (Some (VList [VStr s])) = Ok nf /\
+  norm_doc (Some (VDict [(VStr "description", VStr s)])) = Ok nf /\
+  norm_doc (Some (VDict [(VStr "description", VList [VStr s])])) = Ok nf /\
+  norm_doc (Some (VDict [(VStr "description", VList [VStr s]); (VStr "examples", VList [])])) = Ok nf /\
+  norm_doc (Some (VDict [(VStr "examples", VList []); (VStr "description", VStr s)])) =
+  Ok (VDict [(VStr "examples", VList []); (VStr "description", VList [VStr (str_strip s)])]).
+Proof. exact C10_doc_shapes_same. Qed.
+Theorem C10_doc_normalisation_idempotent : forall v v' : pyval, norm_doc (Some v) = Ok v' -> norm_doc (Some v') = Ok v'.
+Proof. exact C10_doc_idempotent. Qed.
+
+(* cast blocks: absent / None / a mapping of type names (exactly the entries of the generated cast table) / anything else *)
+Theorem C10_cast_block_shapes :
+  parse_casts X None = Ok ([], false) /\
+  parse_casts X (Some VNone) = Ok ([], false) /\
+  (forall d : list (pyval * pyval), names_only d = true ->
+     parse_casts X (Some (VDict d)) = match casts_of_names d with Some l => Ok (l, true) | None => Err MalformedRule end) /\
+  (forall casts : list (pytype * castfn), casts_in_c13 casts = true -> parse_casts X (Some (casts_json casts)) = Ok (casts, true)) /\
+  (forall (d : list (pyval * pyval)) (casts : list (pytype * castfn)) (g : bool),
+     parse_casts X (Some (VDict d)) = Ok (casts, g) -> g = true /\ casts_in_c13 casts = true /\ VDict d = casts_json casts) /\
+  (forall v : pyval, v <> VNone -> (forall d : list (pyval * pyval), v <> VDict d) -> parse_casts X (Some v) = Err MalformedRule).
+Proof. exact C10_cast_shapes. Qed.
+
+Print Assumptions C10_rule_spec_fields. Print Assumptions C10_rule_spec_builds_api_rule. Print Assumptions C10_doc_one_normal_form.
+Print Assumptions C10_doc_normalisation_idempotent. Print Assumptions C10_cast_block_shapes.
